@@ -24,7 +24,7 @@ func genTreeCase(t *rapid.T) *Case {
 	spec := genSpec(t, &SpecOpts{Kinds: skipBiasKinds})
 	m := BuildModel(spec)
 	in := genTree(t, m, &treeOpts{extraEls: []string{"object", "title", "iframe", "noscript", "frame", "my-x", "x-a-y", "a", "b", "img", "br"}, depth: 5, comments: true})
-	return &Case{Spec: spec, Input: BStr(in), Kind: "tree"}
+	return &Case{Spec: spec, Input: BStr(in), Kind: "tree", Ints: []int{drawStage(t, spec)}}
 }
 
 type regionInfo struct {
@@ -108,7 +108,10 @@ func checkC08(c *Case, r *Rec) error {
 	if err := balanced(in); err != nil {
 		return nil // not in the property's domain (well-formed input)
 	}
-	out, _ := sanitizeSpec(c.Spec, in)
+	out, _ := sanitizeStaged(c.Spec, in, stageOf(c, 0))
+	if stageOf(c, 0) >= 0 {
+		r.Class("policy_extended_after_first_use")
+	}
 	inToks, outToks := tokenize(in), tokenize(out)
 	ri := regions(m, inToks)
 	for _, mk := range ri.hidden {
@@ -178,7 +181,7 @@ func checkC09(c *Case, r *Rec) error {
 	if err := balanced(in); err != nil {
 		return nil // not well-nested: outside the property
 	}
-	out, _ := sanitizeSpec(c.Spec, in)
+	out, _ := sanitizeStaged(c.Spec, in, stageOf(c, 0))
 	if err := balanced(out); err != nil {
 		return violation(out, "C09: input is well nested, output is not: %v", err)
 	}
